@@ -74,10 +74,19 @@ def SelState.run (cfg : Cfg) : SelState → List SelOp → List SelOut
   | _, [] => []
   | s, op :: rest => s.out cfg op :: SelState.run cfg (s.next op) rest
 
+/-- **Event "allocation failed"**: the answer to `allocate_buckets` for this server was a failure of
+any kind -- an exception from the server, a lost connection, or the uploader's own 15 s query
+timeout -- or `False`.  `Tahoe2ServerSelector._buckets_allocated` must then demote the server
+(`mark_readonly_peer`), so that the next plan no longer counts on it as writable.  In the model the
+event *is* the demotion; a timed-out query is no exception. -/
+abbrev SelOp.allocationFailed (p : Nat) : SelOp := SelOp.markReadonly p
+
 /-- **Specification of the selector's input** (what `Tahoe2ServerSelector.get_shareholders` must have
 told the selector when it asks for the first plan): every server of the grid was added, the
 read-only ones were demoted, and every share found on disk was booked under the server that
-answered with it.  `held` is the ground truth `server -> shares on disk`. -/
+answered with it.  `held` is the ground truth `server -> shares on disk`.  Between later plans
+the history grows by one `SelOp.allocationFailed p` for every server whose allocation failed or
+timed out (and by `markBad p` for a server whose existing-shares query failed). -/
 def specHistory (nsrv : Nat) (ro : List Nat) (held : SetMap) : List SelOp :=
   (List.range nsrv).map SelOp.addPeer ++ ro.map SelOp.markReadonly ++
     (held.flatMap (fun e => e.2.map (fun sh => (e.1, sh)))).map (fun x => SelOp.addPeerWithShare x.1 x.2)
